@@ -100,7 +100,7 @@ SHARED = [("C02", "split_lemma", ["C02.split"]),
           ("C14", "dask_same", ["C14.dask"]),
           # ISV/JFA on the Dask path: per-class E-steps are functions of (U, V, D, UBM, arguments) only (leaf contracts: no hidden
           # per-machine state), their outputs are reduced exactly once each and the M-step result is copied back (isolated tasks)
-          ("C09", "handover", ["C09.handover"]), ("C09", "reduce_iadd", ["C09.reduce"]),
+          ("C09", "handover", ["C09.handover"]), ("C09", "reduce_iadd", ["C09.reduce"]), ("C09", "esteps", ["C09.estep.V", "C09.estep.U", "C09.estep.D", "C09.isv.estep"]), ("C09", "finalizers", ["C09.finalize.V", "C09.finalize.U"]),
           ("C07", "prec_all", ["C07.prec.x", "C07.prec.y", "C07.prec.z", "C07.uprod", "C07.vprod"])]
 REPLAY = [("C04.fa.continued", "fa_repro.py", "continued", {}), ("C07", "fa_repro.py", "continued", {}), ("C09", "fa_repro.py", "dask_classes", {}), ("C03.loop.body", "gmm_repro.py", "dask_isolated", {"trainer": "ml"}), ("C05.loop.body", "gmm_repro.py", "dask_isolated", {"trainer": "map"}),
           ("C04.fa", "fa_repro.py", "array_vs_list", {}), ("C14", "linear_repro.py", "dask", {}), ("C06", "effects_repro.py", "chunking", {}),
